@@ -205,7 +205,12 @@ def run(ctx):
                "fields written: %s (allowed and required: etype, origin, origin_type)" % names)
         other = [n for n in send.walk() if (n.get("k") == "ref" and n.get("mut") and local_of(n["e"], NO_T) == eb) or
                  (n.get("k") == "mcall" and n.get("rty", "").startswith("&mut") and local_of(n["r"], NO_T) == eb)]
-        ctx.ob("R15.2", site_key(send, "event is not handed out mutably"), not other, send.where, "%d `&mut event` use(s)" % len(other))
+        # ... nor one of its fields (`event.invoke_id.clone_from(..)`, `event.name.push_str(..)`, `event.param_values.take()`)
+        other += [n for n in send.walk() if n.get("k") == "mcall" and n.get("rty", "").startswith("&mut") and hirq.field_chain(n["r"], NO_T)[1] and
+                  local_of(hirq.field_chain(n["r"], NO_T)[0], NO_T) == eb]
+        other += [n for n in send.walk() if n.get("k") == "ref" and n.get("mut") and hirq.field_chain(n["e"], NO_T)[1] and
+                  local_of(hirq.field_chain(n["e"], NO_T)[0], NO_T) == eb]
+        ctx.ob("R15.2", site_key(send, "event is not handed out mutably"), not other, send.where, "%d `&mut event` / `&mut event.<field>` use(s)" % len(other))
         for fld in ("origin_type", "origin"):
             ws = [a for a in writes if hirq.field_chain(a["l"], NO_T)[1] == [fld]]
             ctx.exact("R15.2", "assignments of event.%s" % fld, len(ws), 1)
